@@ -1,4 +1,5 @@
 import MitmVerif.Model.C54
+import MitmVerif.Model.C54_Header
 import Driver.Proto
 open MitmVerif Driver MitmVerif.C54
 
@@ -47,6 +48,21 @@ def stepLine (jar : Jar) (line : String) : Jar × String :=
       -- reply: jar size and the model's prediction of is_expired for every cookie of the response
       (j, "ok " ++ toString j.length ++ " " ++ showList (parsed.map (fun c => b01 c.expired)) ",")
     | _, _, _, _ => (jar, "bad-op")
+  | ["hresp", t, h, p, hs, tbl] =>
+    -- the response as header TEXT: the model tokenizes it itself; tbl = email.utils' verdict per Expires value
+    let parseEntry (s : String) : Option (Bytes × Int) :=
+      match s.splitOn "=" with
+      | [k, v] => match hexOr k, v.toInt? with
+        | some a, some b => some (a, b)
+        | _, _ => none
+      | _ => none
+    match t.toInt?, hexOr h, p.toNat?, allSome ((splitList hs ",").map hexOr), allSome ((splitList tbl ",").map parseEntry) with
+    | some now, some host, some port, some headers, some table =>
+      let dateOf (e : Bytes) : Option Int := (table.find? (fun p => p.1 == e)).map (·.2)
+      let parsed := (headers.flatMap (fun hd => cookiesOfHeader dateOf (bytesToStr hd))).map (RawCookie.toCookie now)
+      let j := response jar host port parsed
+      (j, "ok " ++ toString j.length ++ " " ++ showList (parsed.map (fun c => b01 c.expired)) ",")
+    | _, _, _, _, _ => (jar, "bad-op")
   | ["int", h] =>
     match hexOr h with
     | some b => (jar, match pyInt b with | some i => toString i | none => "err")
